@@ -157,7 +157,12 @@ impl OutputConfig {
         // Compact output when indent is 0 (yq-compatible)
         let compact = args.indent == 0;
 
-        let indent_str = if compact {
+        // `-I0` is "compact" for JSON only. Block-style YAML needs a real
+        // indentation step (a nested mapping written with an empty step is
+        // read back as a sibling), so YAML output falls through to the
+        // clamp below and gets the same 2 columns the streaming fast path
+        // already uses for `-I0` (`yaml_indent_spaces` in `run_yq`).
+        let indent_str = if compact && args.output_format != OutputFormat::Yaml {
             String::new()
         } else if args.tab {
             "\t".to_string()
